@@ -3,6 +3,7 @@
 // files ocaml/driver.ml reads) against libfive built from /repo's working
 // tree and prints one answer line per query in the driver's grammar.
 #include <cstdio>
+#include <algorithm>
 #include <cstring>
 #include <cmath>
 #include <iostream>
@@ -65,9 +66,76 @@ static float of_hex32(const std::string& s) {
     uint32_t u = (uint32_t)strtoul(s.c_str(), nullptr, 16); float f; memcpy(&f, &u, 4); return f;
 }
 
+
+// ---------------------------------------------------------------------------
+// C16: an oracle that wraps a libfive expression (every interface method is
+// answered by a private Evaluator of that expression)
+#include "libfive/oracle/oracle_storage.hpp"
+#include "libfive/eval/evaluator.hpp"
+struct ExprOracleContext : public OracleContext {
+    std::shared_ptr<Tape> tape;
+    bool isTerminal() override { return tape->isTerminal(); }
+};
+class ExprOracle : public OracleStorage<> {
+public:
+    explicit ExprOracle(const Tree& e) : ev(e) {}
+    std::shared_ptr<Tape> tp() {
+        auto c = dynamic_cast<ExprOracleContext*>(context.get());
+        return c ? c->tape : ev.getDeck()->tape;
+    }
+    void evalInterval(Interval& out) override {
+        last_base = tp();
+        out = ev.eval(lower, upper, last_base);
+    }
+    std::shared_ptr<OracleContext> push(Tape::Type t) override {
+        if (t != Tape::INTERVAL) return nullptr;
+        auto c = std::make_shared<ExprOracleContext>();
+        c->tape = ev.push(last_base ? last_base : tp());
+        return c;
+    }
+    void evalPoint(float& out, size_t index = 0) override {
+        out = ev.value(points.col(index), *tp());
+    }
+    void evalArray(Eigen::Block<Eigen::Array<float, Eigen::Dynamic, LIBFIVE_EVAL_ARRAY_SIZE, Eigen::RowMajor>,
+                                1, Eigen::Dynamic> out) override {
+        const unsigned n = out.cols();
+        for (unsigned i = 0; i < n; ++i) ev.set(points.col(i), i);
+        out = ev.values(n, *tp());
+        last_n = n;
+    }
+    void checkAmbiguous(Eigen::Block<Eigen::Array<bool, 1, LIBFIVE_EVAL_ARRAY_SIZE>, 1, Eigen::Dynamic> out) override {
+        out = out || ev.getAmbiguous(out.cols(), *tp());
+    }
+    void evalDerivs(Eigen::Block<Eigen::Array<float, 3, Eigen::Dynamic>, 3, 1, true> out, size_t index = 0) override {
+        out = ev.deriv(points.col(index), *tp()).template head<3>();
+    }
+    void evalDerivArray(Eigen::Block<Eigen::Array<float, 3, LIBFIVE_EVAL_ARRAY_SIZE>, 3, Eigen::Dynamic, true> out) override {
+        const unsigned n = out.cols();
+        for (unsigned i = 0; i < n; ++i) ev.set(points.col(i), i);
+        out = ev.derivs(n, *tp()).template topRows<3>();
+    }
+    void evalFeatures(boost::container::small_vector<Feature, 4>& out) override {
+        out.clear();
+        for (auto& f : ev.features_(points.col(0), tp())) out.push_back(f);
+    }
+    ALIGNED_OPERATOR_NEW_AND_DELETE(ExprOracle)
+private:
+    Evaluator ev;
+    std::shared_ptr<Tape> last_base;
+    unsigned last_n = 0;
+};
+class ExprOracleClause : public OracleClause {
+public:
+    ExprOracleClause(const Tree& e, int k) : e(e), k(k) {}
+    std::unique_ptr<Oracle> getOracle() const override { return std::make_unique<ExprOracle>(e); }
+    std::string name() const override { return "ExprOracle" + std::to_string(k); }
+    Tree e; int k;
+};
+
 struct Ctx {
     std::vector<Tree> handles;
     std::vector<Tree> vars;
+    int noracles = 0;
     int var_index(const TreeData* p) const {
         for (size_t i = 0; i < vars.size(); ++i) if (vars[i].id() == p) return (int)i;
         return -1;
@@ -103,6 +171,8 @@ static std::string dump_dag(const Ctx& cx, const Tree& root) {
                 int ky = go(deps[2].get()); int kz = go(deps[3].get());
                 s = "T." + std::to_string(ku) + "." + std::to_string(kx) + "." +
                     std::to_string(ky) + "." + std::to_string(kz);
+            } else if (auto eo = dynamic_cast<const ExprOracleClause*>(o->oracle.get())) {
+                s = "o" + std::to_string(eo->k);
             } else {
                 s = "o0";
             }
@@ -189,7 +259,7 @@ int main(int argc, char** argv) {
         while (ls >> w) t.push_back(w);
         if (t.empty()) continue;
         std::fesetround(FE_TONEAREST);   // a leaked rounding mode (C12) must not disturb this harness
-        if (t[0] == "case") { case_id = t[1]; cmd = 0; cx.handles.clear(); cx.vars.clear(); continue; }
+        if (t[0] == "case") { case_id = t[1]; cmd = 0; cx.handles.clear(); cx.vars.clear(); cx.noracles = 0; continue; }
         if (t[0] == "end") { cx.handles.clear(); cx.vars.clear(); continue; }
         ++cmd;
         auto H = [&](const std::string& s) -> Tree& { return cx.handles.at(std::stoul(s)); };
@@ -202,6 +272,9 @@ int main(int argc, char** argv) {
             else if (c == "var") { auto v = Tree::var(); cx.vars.push_back(v); cx.handles.push_back(v); }
             else if (c == "un") cx.handles.push_back(Tree::unary(op_of_name(t[1]), H(t[2])));
             else if (c == "bin") cx.handles.push_back(Tree::binary(op_of_name(t[1]), H(t[2]), H(t[3])));
+            else if (c == "oracle") {
+                cx.handles.push_back(Tree(std::unique_ptr<const OracleClause>(new ExprOracleClause(H(t[1]), cx.noracles++))));
+            }
             else if (c == "std") {
                 std::vector<Tree> a;
                 for (size_t k = 2; k < t.size(); ++k) a.push_back(H(t[k]));
@@ -343,6 +416,17 @@ int main(int argc, char** argv) {
                     // the serialiser walks the map in key (pointer) order: report it for the model
                     for (auto& kv : vars) { order += " " + std::to_string(cx.var_index(static_cast<const TreeData*>(kv.first))); }
                     out("VO" + order);
+                    {   // property oracle: names of the saved variables that occur in the saved expression
+                        std::vector<std::string> occ;
+                        Tree fl = tr.flatten();
+                        for (auto* nd : fl.walk())
+                            if (auto nn = std::get_if<TreeNonaryOp>(nd))
+                                if (nn->op == Opcode::VAR_FREE && vars.count(nd)) occ.push_back(tohex(vars[nd]));
+                        std::sort(occ.begin(), occ.end());
+                        std::string w;
+                        for (auto& x : occ) w += (w.empty() ? "" : ",") + x;
+                        out("VW " + (w.empty() ? std::string("-") : w));
+                    }
                     a.addShape(tr, name, doc, vars);
                     roots.push_back(tr);
                 }
@@ -688,6 +772,100 @@ int main(int argc, char** argv) {
                 bool inside_ok = (val == 0 || std::isnan(val)) ? true : (inside == (val < 0));
                 out("FT n=" + std::to_string(fs.size()) + " unmatched=" + std::to_string(unmatched) + " inside_ok=" + (inside_ok ? "1" : "0")
                     + " val=" + hex32(val) + info);
+            }
+            else if (c == "oraclecmp") {
+                // oraclecmp ho he nboxes (lx ly lz ux uy uz)* : C16, a tree containing oracle nodes next to the
+                // equivalent plain tree.  Boxes are nested.  Gradients / features / interval soundness /
+                // specialisation are compared here; values are compared by the caller against the model.
+                Evaluator eo(H(t[1])), ee(H(t[2]));
+                int nb = std::stoi(t[3]);
+                auto tape = eo.getDeck()->tape;
+                int pts = 0, gpts = 0, gbad = 0, fpts = 0, fbad = 0, ibad = 0, pbad = 0, ppts = 0, abad = 0;
+                std::string info;
+                auto note = [&](const std::string& what, const Eigen::Vector3f& p) {
+                    if (info.empty()) info = " first=" + what + "@" + hex32(p.x()) + "," + hex32(p.y()) + "," + hex32(p.z());
+                };
+                std::mt19937 rng(1234);
+                std::uniform_real_distribution<float> d01(0.0f, 1.0f);
+                for (int b = 0; b < nb; ++b) {
+                    Eigen::Vector3f lo(of_hex32(t[4 + 6 * b]), of_hex32(t[5 + 6 * b]), of_hex32(t[6 + 6 * b]));
+                    Eigen::Vector3f hi(of_hex32(t[7 + 6 * b]), of_hex32(t[8 + 6 * b]), of_hex32(t[9 + 6 * b]));
+                    auto ro = eo.intervalAndPush(lo, hi, tape);
+                    Interval io = ro.first;
+                    Interval ie = ee.eval(lo, hi);
+                    std::fesetround(FE_TONEAREST);
+                    auto pushed = ro.second;
+                    out(std::string("OI ") + hex32(io.lower()) + " " + hex32(io.upper()) + " " + (io.isSafe() ? "0" : "1") + " | "
+                        + hex32(ie.lower()) + " " + hex32(ie.upper()) + " " + (ie.isSafe() ? "0" : "1")
+                        + " pushed_len=" + std::to_string(tape_len(*pushed)) + " base_len=" + std::to_string(tape_len(*tape)));
+                    for (int k = 0; k < 40; ++k) {
+                        Eigen::Vector3f p;
+                        for (int a = 0; a < 3; ++a) {
+                            float f = (k < 8) ? (((k >> a) & 1) ? 1.0f : 0.0f) : (k == 8 ? 0.5f : d01(rng));
+                            p(a) = lo(a) + f * (hi(a) - lo(a));
+                            if (k >= 9 && k < 20) {
+                                static const float crit[] = {0.0f, 1.0f, -1.0f, 0.5f, -0.5f};
+                                float cc = crit[(k + a) % 5];
+                                if (cc >= lo(a) && cc <= hi(a) && ((k >> a) & 1)) p(a) = cc;
+                            }
+                            p(a) = std::min(std::max(p(a), lo(a)), hi(a));
+                        }
+                        ++pts;
+                        float vo = eo.value(p), ve = ee.value(p);
+                        std::fesetround(FE_TONEAREST);
+                        // interval soundness of the oracle tree on its own values
+                        float sl = 1e-4f * std::max(1.0f, std::max(std::fabs(io.lower()), std::fabs(io.upper())));
+                        if (io.isSafe() && (std::isnan(vo) || vo < io.lower() - sl || vo > io.upper() + sl)) { ++ibad; note("interval", p); }
+                        if (!std::isfinite(vo) || !std::isfinite(ve) || std::fabs(vo) > 1e3f) continue;
+                        // nested specialisation leaves the answer unchanged, bit for bit
+                        ++ppts;
+                        float vp = eo.value(p, *pushed);
+                        Eigen::Vector4f dp = eo.deriv(p, *pushed);
+                        Eigen::Vector4f d0 = eo.deriv(p);
+                        if (memcmp(&vp, &vo, 4) != 0) { ++pbad; note("push-value", p); }
+                        else if (!(dp.array().isNaN().any() || d0.array().isNaN().any()) && (dp - d0).norm() > 1e-5f * (1 + d0.norm())) { ++pbad; note("push-deriv", p); }
+                        // gradients at unambiguous points
+                        Eigen::Vector4f de = ee.deriv(p);
+                        eo.set(p, 0); ee.set(p, 0);
+                        eo.values(1); ee.values(1);
+                        bool ao = eo.getAmbiguous(1)(0), ae = ee.getAmbiguous(1)(0);
+                        // the oracle path may report a superset of ambiguities, never miss one that changes the gradient
+                        auto fo = eo.features(p); auto fe = ee.features(p);
+                        if (!ao && !ae) {
+                            if (d0.array().isFinite().all() && de.array().isFinite().all() && d0.head<3>().norm() < 1e3f) {
+                                ++gpts;
+                                if ((d0.head<3>() - de.head<3>()).norm() > 2e-3f * (1 + de.head<3>().norm())) { ++gbad; note("gradient", p); }
+                            }
+                        } else {
+                            if (ae && !ao && fe.size() > 1) {
+                                // the plain tree has several distinct gradients here; the oracle tree must know
+                                bool distinct = false;
+                                for (auto& f : fe) if ((f - fe.front()).norm() > 1e-3f) distinct = true;
+                                if (distinct) { ++abad; note("ambiguity-missed", p); }
+                            }
+                        }
+                        // feature sets agree (as sets of directions, tolerance)
+                        bool finite = true;
+                        for (auto& f : fo) if (!f.array().isFinite().all()) finite = false;
+                        for (auto& f : fe) if (!f.array().isFinite().all()) finite = false;
+                        if (finite && !fo.empty() && !fe.empty()) {
+                            ++fpts;
+                            auto covered = [](const std::list<Eigen::Vector3f>& A, const std::list<Eigen::Vector3f>& B) {
+                                for (auto& x : A) {
+                                    bool ok = false;
+                                    for (auto& y : B) if ((x - y).norm() <= 2e-3f * (1 + y.norm())) { ok = true; break; }
+                                    if (!ok) return false;
+                                }
+                                return true;
+                            };
+                            if (!covered(fo, fe) || !covered(fe, fo)) { ++fbad; note("features", p); }
+                        }
+                    }
+                    tape = pushed;
+                }
+                out("OC pts=" + std::to_string(pts) + " gpts=" + std::to_string(gpts) + " gbad=" + std::to_string(gbad)
+                    + " fpts=" + std::to_string(fpts) + " fbad=" + std::to_string(fbad) + " ibad=" + std::to_string(ibad)
+                    + " ppts=" + std::to_string(ppts) + " pbad=" + std::to_string(pbad) + " abad=" + std::to_string(abad) + info);
             }
             else if (c == "ivcheck") {
                 // ivcheck h lx ly lz ux uy uz exact(0/1) : C02's statement on one expression and box
